@@ -329,4 +329,71 @@ example : LocallyConvex (K := ℚ) (@pt ℚ (fieldNum ℚ id) #[⟨0,0⟩, ⟨1,
     List.not_mem_nil, or_false] at hc
   rcases hc with rfl | rfl | rfl | rfl <;> simp [pt, area2]
 
+/-! ## `Compound::decompose_trimesh` -/
+
+/-- how a shape of the compound relates to the Hertel–Mehlhorn piece it was built from -/
+def ShapeOf (pts : Array (V2 K)) (piece : Array Nat) : Piece K → Prop
+  | .triangle a b c =>
+    letI := fieldNum K sq
+    piece.size = 3 ∧ a = pt pts (piece.getD 0 0) ∧ b = pt pts (piece.getD 1 0) ∧ c = pt pts (piece.getD 2 0)
+  | .polygon points normals =>
+    letI := fieldNum K sq
+    piece.size ≠ 3 ∧ points.toList.Sublist (piece.toList.map (pt pts)) ∧ 3 ≤ points.size ∧ normals.size = points.size
+
+private theorem piecesOf_spec (pts : Array (V2 K)) :
+    ∀ (ps : List (Array Nat)) (shapes : List (Piece K)),
+      @piecesOf K (fieldNum K sq) (ps.map fun p => p.map (@pt K (fieldNum K sq) pts)) = some shapes →
+      List.Forall₂ (ShapeOf sq pts) ps shapes := by
+  intro ps
+  induction ps with
+  | nil => intro shapes h; simp [piecesOf] at h; subst h; exact List.Forall₂.nil
+  | cons p ps ih =>
+    intro shapes h
+    simp only [List.map_cons, piecesOf] at h
+    by_cases h3 : (p.map (@pt K (fieldNum K sq) pts)).size = 3
+    · rw [if_pos h3] at h
+      simp only at h
+      cases hrest : @piecesOf K (fieldNum K sq) (ps.map fun p => p.map (@pt K (fieldNum K sq) pts)) with
+      | none => simp [hrest] at h
+      | some rest =>
+        simp only [hrest, Option.map_some, Option.some.injEq] at h
+        subst h
+        refine List.Forall₂.cons ?_ (ih rest hrest)
+        have hs : p.size = 3 := by simpa using h3
+        refine ⟨hs, ?_, ?_, ?_⟩ <;>
+          simp [pt, Array.getD_eq_getD_getElem?, hs]
+    · rw [if_neg h3] at h
+      cases hf : @fromConvexPolyline K (fieldNum K sq) (p.map (@pt K (fieldNum K sq) pts)) with
+      | none => simp [hf] at h
+      | some r =>
+        simp only [hf, Option.map_some] at h
+        cases hrest : @piecesOf K (fieldNum K sq) (ps.map fun p => p.map (@pt K (fieldNum K sq) pts)) with
+        | none => simp [hrest] at h
+        | some rest =>
+          simp only [hrest, Option.map_some, Option.some.injEq] at h
+          subst h
+          refine List.Forall₂.cons ?_ (ih rest hrest)
+          obtain ⟨a, b, c⟩ := @fromConvexPolyline_spec K (fieldNum K sq) _ r.1 r.2 hf
+          exact ⟨by simpa using h3, by simpa using a, b, c⟩
+
+/-- **C16 (c), `Compound::decompose_trimesh` inherits the Hertel–Mehlhorn pieces** — every input.  When a compound is
+returned its shapes correspond one-to-one, in order, to the pieces of `hertel_mehlhorn_idx`: a 3-vertex piece becomes
+the `Triangle` on exactly its vertices; any other piece becomes a `ConvexPolygon` whose points are a **sub-list of the
+piece's points in the same cyclic order** (only vertices judged collinear with their neighbours by the normal test are
+dropped), at least three of them, with one normal per point.  Hence the partition / orientation / local-convexity
+theorems about the pieces carry over to the compound up to the pruned, nearly straight vertices. -/
+theorem decompose_trimesh_pieces (pts : Array (V2 K)) (tris : Array (Nat × Nat × Nat)) (shapes : List (Piece K)) :
+    letI := fieldNum K sq
+    decomposeTrimesh pts tris = some shapes →
+    List.Forall₂ (ShapeOf sq pts) (hertelMehlhornIdx pts tris).toList shapes := by
+  intro h
+  apply piecesOf_spec sq pts
+  simpa [decomposeTrimesh, hertelMehlhorn] using h
+
+/-- non-vacuity: the unit square (two triangles) decomposes into one 4-gon shape -/
+example : ShapeOf (K := ℚ) id #[⟨0,0⟩, ⟨1,0⟩, ⟨1,1⟩, ⟨0,1⟩] #[0, 1, 2, 3]
+    (.polygon #[⟨0,0⟩, ⟨1,0⟩, ⟨1,1⟩, ⟨0,1⟩] #[⟨0,-1⟩, ⟨1,0⟩, ⟨0,1⟩, ⟨-1,0⟩]) := by
+  refine ⟨by simp, ?_, by simp, by simp⟩
+  simp [pt]
+
 end C16
